@@ -185,8 +185,8 @@ def finish(res, tier, seed, level, t0, rule, assumptions, exhaustive=False, extr
 
 
 # ---- codec family -------------------------------------------------------------------------
-def gen_codec(modidx, planset, depth, exact=True, extra_consts=(), maxcompose=6, xervals=2):
-    consts = ["Mod <- TheMod", "ModIdx = %d" % modidx, 'PlanSet = "%s"' % planset, "Depth = %d" % depth, "MaxCompose = %d" % maxcompose, "XerVals = %d" % xervals,
+def gen_codec(modidx, planset, depth, exact=True, extra_consts=(), maxcompose=6, xervals=2, valcap=0, maxfail=6):
+    consts = ["Mod <- TheMod", "ModIdx = %d" % modidx, 'PlanSet = "%s"' % planset, "Depth = %d" % depth, "MaxCompose = %d" % maxcompose, "XerVals = %d" % xervals, "ValCap = %d" % valcap, "MaxFail = %d" % maxfail,
               "ByteExact = %s" % ("TRUE" if exact else "FALSE")] + list(extra_consts)
     return lib.generate("MC_Gen", consts, ["RoundTrip", "WireCanonical", "DecSound", "Export"], workers=gen_workers)
 
@@ -195,19 +195,20 @@ def nontrivial(M, scn):
     return (M.name, scn["ty"], json.dumps(scn["val"], sort_keys=True))
 
 
-def codec_family(prop, tier, seed, planset, level="model_checking", san="plain", rule="", modules=(1, 2, 3), depth=None, exact=True):
+def codec_family(prop, tier, seed, planset, level="model_checking", san="plain", rule="", modules=(1, 2, 3), depth=None, exact=True,
+                 valcap=0, maxfail=6, invariants=("RoundTrip",)):
     t0 = time.time()
     res = Result(prop)
     known = lib.load_findings(prop)
     depth = depth or (2 if tier == "quick" else 3)
     for mi in modules:
-        mod, scns, st = gen_codec(mi, planset, depth, exact)
+        mod, scns, st = gen_codec(mi, planset, depth, exact, valcap=valcap, maxfail=maxfail)
         res.states += st["distinct"]
         res.transitions += st["states"]
         M = Module(mod)
         for s in scns:
             res.distinct.add(nontrivial(M, s))
-        run_sessions(res, M, mod, scns, "Trace_Codec", san=san, known=known,
+        run_sessions(res, M, mod, scns, "Trace_Codec", san=san, known=known, invariants=invariants,
                      constants=("Mod <- TheMod", "ByteExact = %s" % ("TRUE" if exact else "FALSE")))
         log("%s module %s: %d sessions, %d violations so far, %.0fs" % (prop, M.name, len(scns), len(res.violations), time.time() - t0))
     return finish(res, tier, seed, level, t0, rule, ASSUME_CODEC,
@@ -239,12 +240,27 @@ def check_C08(tier, seed):
                         rule="for every (type, valid value) of the universe: the value itself and every value derived from it by violating exactly one value / SIZE / alphabet constraint at one position (every bound, both sides; first and last character; every element and component position; spec/Values.tla Corruptions); asn_check_constraints must return 0 iff Valid (Asn1Types.tla) and, on failure, a terminated message within every buffer size tried (0,1,2,16,L-1,L,L+1,L+2,256) that names a type")
 
 
+def check_C07(tier, seed):
+    return codec_family("C07", tier, seed, "sinks", exact=False, valcap=4 if tier == "quick" else 0, maxfail=5 if tier == "quick" else 12,
+                        rule="per (type, value, syntax): asn_encode_to_new_buffer, asn_encode_to_buffer with buffer sizes {0, 1, n/2, n-1, n, n+1} (canaries around the buffer), asn_encode with a callback failing at its k-th invocation for k = 0..MaxFail; the same for structures violating one constraint and for zero-initialised structures (clean failure: -1 with an errno and no buffer, or a consistent encoding)")
+
+
+def check_C14(tier, seed):
+    return codec_family("C14", tier, seed, "life", exact=False, san="asan", valcap=3 if tier == "quick" else 10, maxfail=8 if tier == "quick" else 24,
+                        rule="per (type, value, syntax) histories: starved chunked decode then free; decode, RESET (structure must be all zero), decode into the reset structure, re-encode, free; failure of the k-th library allocation (k = 1..MaxFail) during decode / encode, then free; truncated / damaged input then free or reset + re-decode; the allocation ledger (link-time wrapped allocator) must be empty after the last free; ASan build turns double frees into Crash events")
+
+
+def check_C04(tier, seed):
+    return codec_family("C04", tier, seed, "mutations", exact=False, san="asan", valcap=2 if tier == "quick" else 6, level="exploration",
+                        rule="per (type, value, syntax in DER/OER/UPER/CXER): every truncation, byte substitutions {00,01,7f,80,81,ff,+1,-1,+80} at every position (first 6 / last 4 of long encodings), duplicated tail, dropped byte, appended ff*4; decode (rc in {OK,WMORE,FAIL}, consumed <= size), print, validate, re-encode, decode the re-encoding (must compare equal), free; ASan+UBSan build: any report is a Crash event that no spec action explains")
+
+
 def check_C01(tier, seed):
     return codec_family("C01", tier, seed, "rt" if tier == "quick" else "chain", exact=False,
                         rule="sessions Build, Encode(s), Decode(s), Compare, Encode(DER) for every syntax s (thorough: all ordered pairs of syntaxes as transcoding chains) over every (type, value) of the universe; distinct = distinct (module, type, value)")
 
 
-CHECKS = {"C01": check_C01, "C02": check_C02, "C03": check_C03, "C05": check_C05, "C06": check_C06, "C08": check_C08}
+CHECKS = {"C01": check_C01, "C02": check_C02, "C03": check_C03, "C04": check_C04, "C05": check_C05, "C06": check_C06, "C07": check_C07, "C08": check_C08, "C14": check_C14}
 
 
 def replay(prop, path):
